@@ -37,10 +37,11 @@ class ScalarOp(diff.DiffOperator, operator.CombinableOperator):
         # setup scalar operator
         self.arr, self.arr0 = scalar_setup(arr, arr0, axes=axes, check=check)
 
-        # setup derivatives
+        # setup derivatives (aligned with the operator *before* its axes are moved)
         darrs = darrs or {}
         d2arrs = d2arrs or {}
-        opts = {"axes": axes, "check": check, "ref": self.arr}
+        ref = self.arr if axes is None else scalar_setup(arr, arr0, check=check)[0]
+        opts = {"axes": axes, "check": check, "ref": ref}
         self.darrs = {param: scalar_setup(*darrs[param], **opts) for param in darrs}
         self.d2arrs = {
             diff.Pair(params): scalar_setup(*d2arrs[params], **opts)
